@@ -75,9 +75,15 @@ def main():
   ids = sorted(os.path.basename(os.path.dirname(p)) for p in glob.glob(os.path.join(ROOT, "seeded", "*", "meta.json")))
   if a.only:
     ids = [i for i in ids if i in a.only.split(",") or i.split("-")[0] in a.only.split(",")]
+  ids.sort(key=lambda i: (i.split('-')[1], i.split('-')[0]))  # runs of one property share a lock: interleave properties
   jobs = 1 if a.inplace else a.jobs
   with ThreadPoolExecutor(jobs) as ex:
-    results = list(ex.map(lambda s: one(s, a), ids))
+    def one_logged(sid):
+      r = one(sid, a)
+      with open("/var/tmp/selftest_progress.jsonl", "a") as f:   # survives an interrupted run
+        f.write(json.dumps(r) + "\n")
+      return r
+    results = list(ex.map(one_logged, ids))
   path = os.path.join(ROOT, "seeded", "RESULTS.json")
   old = {}
   if os.path.exists(path):
